@@ -129,6 +129,15 @@ class Parser(object):
         # try to use the token in the actual lexer over the token that
         # got passed in.
         cur_token = self.lexer.cur_token or token
+        if (token is not None and token is self.lexer.auto_semi_token and
+                token.type in ('DIV', 'DIVEQUAL')):
+            # a semicolon was just inserted in front of this token, so a
+            # statement starts here: the slash cannot be a division and
+            # must be the start of a regular expression literal.
+            regex_token = self.lexer.backtracked_token(pos=len(token.value))
+            if regex_token.type == 'REGEX':
+                self.parser.errok()
+                return regex_token
         if (cur_token.type == 'DIV' and self.lexer.valid_prev_token.type in (
                 'RBRACE', 'PLUSPLUS', 'MINUSMINUS')):
             # this is the most pathological case in JavaScript; given
